@@ -432,6 +432,27 @@ def work(ctx, tier):
     # a date hint is "the time until that date" at the moment of asking: asking again later must give less
     repeat = [(v, d) for v, d in date_cases if (d - now).total_seconds() > 20][:6]
 
+    # ------------------------------------------------------------------ two carriers at once: a useless attribute next to a valid header
+    # SDKs copy a vendor field verbatim into `retry_after` (or default it to ""); when that attribute says nothing usable, the server's
+    # own Retry-After header is the only hint there is
+    for i in range((300 if tier == "quick" else 6000) // ctx.nshards):
+        useless = rng.choice(["", " ", "soon", "1.5", "None", "n/a", "\t", "--"])
+        secs = rng.choice([0, 1, 7, 120, 86400])
+        shape = rng.choice([s_ for s_ in SHAPES if s_ not in ("nonpairs", "raisingget", "getonly")])
+        casing, where = rng.choice(CASINGS), rng.choice(["headers", "response"])
+        e, _ = mk_exc(str(secs), shape, casing, where)
+        e.retry_after = useless
+        case = {"retry_after_attribute": useless, "header_value": str(secs), "shape": shape, "casing": casing, "where": where, "tag": "useless-attribute+valid-header"}
+        ctx.cnt["classifier_calls"] += 1
+        ctx.cnt["useless_attribute_next_to_a_valid_header"] += 1
+        try:
+            hint, klass = hint_of(http_retry_after_classifier(e))
+        except BaseException as x:  # noqa: BLE001
+            viol("classifier-raised:" + type(x).__name__, f"http_retry_after_classifier raised {type(x).__name__}: {str(x)[:120]} for {case}", case)
+            continue
+        if hint != float(secs):
+            viol("integer-hint-wrong", f"the attribute {useless!r} carries no hint, the header says {secs}; hint {hint!r} for {case}", case)
+
     # ------------------------------------------------------------------ HTTP-dates while the wall clock moves between two reads
     stepping_clock_dates(ctx, viol, rng, 400 if tier == "quick" else 8000)
 
